@@ -301,7 +301,15 @@ pub fn run_case(tape: &mut Tape, _tier: Tier, _p: &CaseParams) -> CaseOutcome {
       }
     }
     let a = structure_of(&sshape);
-    let b = structure_of(&dshape);
+    // entries of the direct build that nothing reaches (their importer turned
+    // into an error after its dependencies were visited) are C01's business
+    let reach = crate::checks::c17::reachable_all(&dshape);
+    let mut b = structure_of(&dshape);
+    let before = b.entries.len();
+    b.entries.retain(|k, _| reach.contains(k));
+    b.code_edges.retain(|k, _| reach.contains(k));
+    b.redirects.retain(|k, _| reach.contains(k));
+    out.count("direct_build_orphans_ignored", (before - b.entries.len()) as u64);
     if let Some((class, what)) = structure_diff(&a, &b) {
       // an entry that was a root of the original graph was loaded with the
       // root defaults (unknown media type taken as JavaScript, attribute-less
